@@ -6,6 +6,7 @@ mod mutants;
 mod ops;
 mod probe;
 mod rng;
+mod rootfits;
 mod synth;
 
 use std::env;
